@@ -9,7 +9,7 @@ pub const DEF: PropDef = PropDef {
     id: "C04",
     run,
     oracle,
-    rule: "cases = RFC 3954-conformant V9 streams built from a generated plan: template pool (2..5 ids, 1..3 alternative definitions each, plain and options templates, 1..12 fields drawn from fields the library types (counters, addresses, MACs, strings, durations, protocol) and fields it does not know, all supported widths 1/2/3/4/8/16), histories of 1..5 calls, 1..3 packets per call (count by records for single-packet calls, by flowsets when chained), 1..6 flowsets per packet in any order, 1..4 template records per template flowset, 0..40 records per data flowset, padding 0..3, redefinitions between calls, V5/V7 packets interleaved. Oracle = independent RFC 3954 reference decoder + template-cache model over the same bytes: header, every template record, every record's every field value in the library-assigned type, padding; both directions (nothing missing, nothing extra); cache = model after every call. boundary-counts phase: deterministic packets with 254..257, 1023..1025, 4095..4097 and 16383..16385 records per set / fields per template / sets per packet / template definitions per packet. redefinition-chain phase: 100-900 calls over one or two ids whose definition keeps changing. datagram-sized phases: packets up to 64 KB with up to 18,000 records per set, 4,000 fields per template, 1,500 sets per packet. strict phase cannot produce any open finding's trigger; wide phase adds options data with several records (D6) and must match its signature exactly. non-trivial = >= 1 data flowset with >= 2 records under a template with >= 2 fields; distinct by digest.",
+    rule: "cases = RFC 3954-conformant V9 streams built from a generated plan: template pool (2..5 ids, 1..3 alternative definitions each, plain and options templates, 1..12 fields drawn from fields the library types (counters, addresses, MACs, strings, durations, protocol) and fields it does not know, all supported widths 1/2/3/4/8/16), histories of 1..5 calls, 1..3 packets per call (count by records for single-packet calls, by flowsets when chained), 1..6 flowsets per packet in any order, 1..4 template records per template flowset, 0..40 records per data flowset, padding 0..3, redefinitions between calls, V5/V7 packets interleaved. Oracle = independent RFC 3954 reference decoder + template-cache model over the same bytes: header, every template record, every record's every field value in the library-assigned type, padding; both directions (nothing missing, nothing extra); cache = model after every call. kind-changes phase: the same generator with ids that change between template and options template (also inside one packet). boundary-counts phase: deterministic packets with 254..257, 1023..1025, 4095..4097, 16383..16385, 32767..32769 and 65,500 records per set / fields per template / sets per packet / template definitions per packet. redefinition-chain phase: 100-900 calls over one or two ids whose definition keeps changing. datagram-sized phases: packets up to 64 KB with up to 18,000 records per set, 4,000 fields per template, 1,500 sets per packet. strict phase cannot produce any open finding's trigger; wide phase adds options data with several records (D6) and must match its signature exactly. non-trivial = >= 1 data flowset with >= 2 records under a template with >= 2 fields; distinct by digest.",
     assumptions: &["which data type a field number has is taken from the library's public lookup (pinned by the suite's lookup snapshots); slicing and interpretation are the harness' own"],
 };
 
@@ -41,6 +41,9 @@ pub fn run(ctx: &Ctx) {
     ctx.search("many-records", ctx.n(4_000, 400_000), &move || gen::conformant_case(big, BuildOpts::STRICT), &oracle);
     let wide = StreamCfg { max_fields: 90, ids: (1, 2), calls: (1, 2), max_sets: 3, max_recs: 3, ..c };
     ctx.search("wide-templates", ctx.n(10_000, 1_000_000), &move || gen::conformant_case(wide, BuildOpts::STRICT), &oracle);
+    // an id may be a template and, later (also later in the same packet), an options template, and back
+    let mixed = StreamCfg { mixed_kinds: true, ..c };
+    ctx.search("kind-changes", ctx.n(40_000, 4_000_000), &move || gen::conformant_case(mixed, BuildOpts::STRICT), &oracle);
     // counts on and around 2^8, 2^10, 2^12, 2^14 (records, fields, sets, template definitions)
     ctx.enumerate("boundary-counts", gen::boundary_count_cases(crate::wire::Proto::V9), false, &oracle);
     // one or two ids redefined over and over (100-900 calls, data after every redefinition; several hundred redefinitions of one id)
